@@ -72,7 +72,7 @@ SEQ_THREADING = _types.SimpleNamespace(Lock=SeqLock, Condition=SeqCondition, RLo
 SEQ_MULTIPROCESSING = _types.SimpleNamespace(Lock=SeqLock, Condition=SeqCondition, Manager=lambda: _Mgr())
 
 
-def run_fault(ps, w, menu, nerr=1, pinned=None):
+def run_fault(ps, w, menu, nerr=1, pinned=None, obstruct=False):
     F = w.build(ps)
     s = w.store()
     n = ps.choose(step.CALLV, 0, len(menu))
@@ -94,6 +94,14 @@ def run_fault(ps, w, menu, nerr=1, pinned=None):
                 fire = ps.decide(FAULTV == idx)
             if fire:
                 st["hit"] = (idx, kind, path)
+                if obstruct and kind == "mkdir" and (
+                        pinned.get("errno_idx") == nerr if pinned is not None else ps.decide(ERRV == nerr)):
+                    # not an I/O error but an unusual on-disk state: something that is not a directory sits where
+                    # the call wants one (the mkdir then fails with EEXIST and the path never becomes a directory)
+                    if not (F.b.isfile(path) or F.b.isdir(path)):
+                        F.b.create(path, b"")
+                    st["err"], st["obstructed"] = _errno.EEXIST, True
+                    return
                 if pinned is not None:
                     st["err"] = ERRNOS[pinned.get("errno_idx", 0)]
                     sticky = bool(pinned.get("sticky"))
@@ -106,11 +114,15 @@ def run_fault(ps, w, menu, nerr=1, pinned=None):
                 raise OSError(st["err"], os.strerror(st["err"]) + " (injected)", path)
     F.injector = inj
     blocked = False
+    diverged = None
     try:
         val = call.run(w, s)
         res = "ok"
     except WouldBlock as e:
         res, val, blocked = "BLOCKED", e, True
+    except symfs.Diverged as e:
+        res, val, diverged = "DOES-NOT-RETURN", Exception(str(e)), str(e)
+        F.npoints = 0
     except Exception as e:   # noqa
         res, val = w.classify(e), e
     F.injector = None
@@ -127,6 +139,22 @@ def run_fault(ps, w, menu, nerr=1, pinned=None):
     cases, exp = call.model(w, pre)
     if blocked:
         bad.append(("C08:call-blocked-on-its-own-lock", str(val)[:80]))
+    if diverged:
+        bad.append(("C08:call-does-not-return", diverged[:100]))
+    if st.get("obstructed"):
+        # only termination and the lock lists are judged for this environment (it is not an I/O error: C13's clauses
+        # about failed calls do not speak about it)
+        for p in w.instance_problems(s):
+            if p[0] == "identifier-left-locked":
+                bad.append(("C08:identifier-left-locked", p[1:]))
+        rec = dict(kind="fault", call=call.label, roles=call.roles, res=res, site=("mkdir-obstructed", addr_kind(st["hit"][2])),
+                   sticky=True, at=st["hit"][0], err="EEXIST(not a directory)", bad=bad, nob=1, n=n, observations=[],
+                   exc=(type(val).__name__ + ": " + str(val)[:120]) if isinstance(val, Exception) else None,
+                   expect_hang=bool(diverged))
+        if bad:
+            rec["vals"] = ps.model_values(w.statevars + [step.CALLV, step.OFFV, FAULTV, STICKY, ERRV])
+            rec["relation"] = call.relation(w, rec["vals"])
+        return rec
     if res == "ok":
         # reported success: the whole effect must have been achieved
         oke, _ = ps.valid(w.state_eq(post, exp))
@@ -202,21 +230,22 @@ def run_fault(ps, w, menu, nerr=1, pinned=None):
     site = (st["hit"][1], addr_kind(st["hit"][2]))
     rec = dict(kind="fault", call=call.label, roles=call.roles, res=res, site=site, sticky=sticky, at=st["hit"][0],
                err=_errno.errorcode.get(st["err"]), bad=bad, nob=nob, n=n, observations=observations,
-               exc=(type(val).__name__ + ": " + str(val)[:120]) if isinstance(val, Exception) else None)
+               exc=(type(val).__name__ + ": " + str(val)[:120]) if isinstance(val, Exception) else None,
+               expect_hang=bool(diverged))
     if bad:
         rec["vals"] = ps.model_values(w.statevars + [step.CALLV, step.OFFV, FAULTV, STICKY, ERRV])
         rec["relation"] = call.relation(w, rec["vals"])
     return rec
 
 
-def explore_faults(w_args, menu_fn, nerr=1, procs=None):
+def explore_faults(w_args, menu_fn, nerr=1, procs=None, obstruct=False):
     a = dict(w_args, threading_mod=SEQ_THREADING, multiprocessing_mod=SEQ_MULTIPROCESSING)
 
     def worker(idx):
         w = World(**a)
         menu = menu_fn(w)
-        ps = PathSym(w.inv() + [member_of(step.CALLV, idx), FAULTV >= 0, ERRV >= 0, ERRV < nerr])
-        recs = ps.explore(lambda p: run_fault(p, w, menu, nerr))
+        ps = PathSym(w.inv() + [member_of(step.CALLV, idx), FAULTV >= 0, ERRV >= 0, ERRV < nerr + (1 if obstruct else 0)])
+        recs = ps.explore(lambda p: run_fault(p, w, menu, nerr, obstruct=obstruct))
         w.cleanup()
         return recs, ps.st.as_dict(), len(menu)
     w0 = World(**a)
@@ -225,7 +254,7 @@ def explore_faults(w_args, menu_fn, nerr=1, procs=None):
     return par_explore(worker, [list(range(r, n, k)) for r in range(k) if r < n], procs)
 
 
-def replay_fault(w_args, menu_fn, vals, want_prefixes):
+def replay_fault(w_args, menu_fn, vals, want_prefixes, obstruct=False, nerr=1):
     a = dict(w_args, mode="passthrough", threading_mod=SEQ_THREADING, multiprocessing_mod=SEQ_MULTIPROCESSING)
     w = World(**a)
     try:
@@ -236,7 +265,7 @@ def replay_fault(w_args, menu_fn, vals, want_prefixes):
                 x = vals[str(v)]
                 pins.append(v == (z3.BoolVal(x) if isinstance(x, bool) else z3.IntVal(x)))
         ps = PathSym(w.inv() + pins)
-        recs = ps.explore(lambda p: run_fault(p, w, menu, pinned=vals))
+        recs = ps.explore(lambda p: run_fault(p, w, menu, nerr, pinned=vals, obstruct=obstruct))
         r = recs[0]
         hit = [b for b in r["bad"] if any(b[0].startswith(pfx) for pfx in want_prefixes)]
         return bool(hit), ("passthrough replay on the real file system (history %s; %s %s injected at operation %d%s): "
